@@ -7,7 +7,7 @@
    failed unlink with I released) neither break the lock order nor block anybody, and they only
    shorten a call (the step bound total_work is unchanged). *)
 From Cas Require Import Conc.
-From CasProofs Require Import ConcInv ConcProofs ConcProgress.
+From CasProofs Require Import ConcInv ConcProofs ConcProgress ConcExamples.
 From CasProps Require Import ConcSetting.
 
 (* every code path acquires locks in the order I < S < W, and W is never held across a step *)
@@ -16,6 +16,29 @@ Theorem C15_lock_order :
     (forall a l, In a (acquires p) -> In l (holds p) -> lock_lt l a) /\ ~ In LW (holds p).
 Proof. exact ConcProofs.C15_lock_order. Qed.
 Print Assumptions C15_lock_order.
+
+(* reads (get, get_size, get_range) and iteration acquire only S, in SHARED mode, while holding
+   nothing: the steps that leave read.lock_S of a read (GRead), of its retry (GReread) and of an
+   iteration (IRead) *)
+Theorem C15_readers_acquire_only_S_shared :
+  forall p : pc,
+    (exists k md, p = GRead k md) \/ (exists k it md, p = GReread k it md) \/ p = IRead ->
+    acquires p = [LS] /\ excl p = false /\ holds p = [].
+Proof. exact ConcProofs.C15_readers_shared_only. Qed.
+Print Assumptions C15_readers_acquire_only_S_shared.
+
+(* the iteration step is enabled exactly when nobody holds S exclusively (other readers and the
+   holder of I do not block it); it returns the keys of the current key map, changes no lock word
+   and leaves the thread idle: the read guard does not outlive the step *)
+Theorem C15_iteration_step :
+  forall H cmp nops bad ckbad g t ts, tget (g_thr g) t = Some ts -> t_pc ts = IRead ->
+    (enabled H cmp nops bad ckbad g t = true <-> g_S g = None) /\
+    forall g', cstep H cmp nops bad ckbad g t = Some g' ->
+      g_I g' = g_I g /\ g_S g' = g_S g /\ g_R g' = g_R g /\ g_idx g' = g_idx g /\ g_cas g' = g_cas g /\
+      tget (g_thr g') t =
+        Some (mkT (t_calls ts) Idle (t_res ts ++ [CKeys (map fst (km (g_idx g)))])).
+Proof. exact ConcProofs.C15_iter_step. Qed.
+Print Assumptions C15_iteration_step.
 
 (* in every reachable state some unfinished thread can move: no interleaving blocks forever *)
 Theorem C15_deadlock_free :
@@ -37,6 +60,14 @@ Theorem C15_progress :
     (csteps H cmp nops bad ckbad (init_c thr0 cas0) sched <= total_work thr0 cas0)%nat.
 Proof. exact ConcProgress.C15_progress. Qed.
 Print Assumptions C15_progress.
+
+(* the bound counts 6 steps for a get_range (as for a get: take, lookup, pre-open exits, open,
+   retry lookup, open under the lock) and 2 for an iteration (take, read under the guard) *)
+Example C15_work_of_new_calls :
+  forall B k a b, call_work B (KGetRange k a b) = 6%nat /\ call_work B KIter = 2%nat /\
+                  call_work B (KGet k) = 6%nat.
+Proof. intros. repeat split. Qed.
+Example C15_step_bound_with_range_and_iteration := ConcExamples.progRI_step_bound.
 
 Theorem C15_calls_complete :
   forall H cmp nops bad ckbad thr0 cas0, ConcSetting H cmp thr0 cas0 ->
